@@ -165,6 +165,7 @@ def load(features="", repo=None, quiet=False):
     with open(pk, "rb") as fh:
         data = pickle.load(fh)
     os.utime(pk)
+    data["repo_root"] = repo or REPO      # rules that read non-Rust sources (grammars) or attribute text read them from the analysed tree
     if os.environ.get("DISCRET_SCRAMBLE_LOCALS"):
         scramble_locals(data)
     info = {"key": key, "driver_ran": ran, "load_s": round(time.time() - t0, 2), "features": features,
